@@ -1,0 +1,50 @@
+//go:build verif
+// +build verif
+
+package tars
+
+import (
+	"sync/atomic"
+
+	"github.com/TarsCloud/TarsGo/tars/transport"
+)
+
+// Verification hooks (build tag verif only): read-only views of the per-call bookkeeping of the client side
+// (ServantProxy.queueLen, AdapterProxy.resp, endpointManager.invokeNum). No behaviour of the package changes.
+
+// VerifQueueLen returns ServantProxy.queueLen (calls currently inside doInvoke).
+func VerifQueueLen(s *ServantProxy) int32 { return atomic.LoadInt32(&s.queueLen) }
+
+// VerifInvokeNum returns endpointManager.invokeNum (calls between preInvoke and postInvoke); -1<<31 if the
+// manager is not an *endpointManager.
+func VerifInvokeNum(s *ServantProxy) int32 {
+	if e, ok := s.manager.(*endpointManager); ok {
+		return atomic.LoadInt32(&e.invokeNum)
+	}
+	return -1 << 31
+}
+
+// VerifPending returns the request ids that currently have an entry in the adapter's pending-reply table.
+func VerifPending(adp *AdapterProxy) []int32 {
+	var ids []int32
+	adp.resp.Range(func(k, v interface{}) bool {
+		ids = append(ids, k.(int32))
+		return true
+	})
+	return ids
+}
+
+// VerifAdapters returns the adapter proxies the proxy's endpoint manager currently knows.
+func VerifAdapters(s *ServantProxy) []*AdapterProxy {
+	var out []*AdapterProxy
+	if e, ok := s.manager.(*endpointManager); ok {
+		e.epList.Range(func(k, v interface{}) bool {
+			out = append(out, v.(*AdapterProxy))
+			return true
+		})
+	}
+	return out
+}
+
+// VerifTarsClient returns the transport client of an adapter (for transport.VerifClientState).
+func VerifTarsClient(adp *AdapterProxy) *transport.TarsClient { return adp.tarsClient }
